@@ -163,6 +163,7 @@ namespace vt
       long long case_id = 0;
       bool tracing = true;          // false: only results are wanted
       bool in_case = false;
+      bool by_bytes = false;        // current case runs on an incremental input: offsets come from the byte counters
       long long next_sid = 0;       // serial numbers of instrumented state objects
       int fuel_cases = 0;           // cases of the current bundle that ran out of fuel
       std::vector< std::string > inputs;  // explicit inputs, used in addition to the enumerated strings
@@ -384,6 +385,11 @@ namespace vt
       if constexpr( is_buffer_like< In > ) {
          r.o = r.b - g().base_byte;
          r.e = -1;
+      }
+      else if( g().by_bytes ) {
+         // a memory_input created by rematch<> inside an incremental input: its pointers lead into the buffer
+         r.o = r.b - g().base_byte;
+         r.e = r.o + ( in.end() - in.current() );
       }
       else {
          r.o = in.current() - g().base;
@@ -627,10 +633,12 @@ namespace vt
             w.kv( "b", (long long)p.byte );
             w.kv( "l", (long long)p.line );
             w.kv( "c", (long long)p.column );
-            w.kv( "o", ai.begin() - G.base );
-            w.kv( "eo", ai.end() - G.base );
+            // offsets from the byte counters: valid for memory and for incremental inputs alike
+            const long long ob = (long long)p.byte - G.base_byte;
+            w.kv( "o", ob );
+            w.kv( "eo", ob + (long long)ai.size() );
             w.kv( "n", (long long)ai.size() );
-            w.kv( "io", in.current() - G.base );
+            w.kv( "io", cur_of( in ).o );
             w.kv( "v", v );
             w.kv( "s", first_sid( st... ) );
             w.s( "}\n" );
@@ -665,7 +673,7 @@ namespace vt
             w.s( "{\"k\":\"a0\"" );
             w.kv( "r", rid< Rule >() );
             w.kv( "af", afam_of< Action > );
-            w.kv( "io", in.current() - G.base );
+            w.kv( "io", cur_of( in ).o );
             w.kv( "v", v );
             w.kv( "s", first_sid( st... ) );
             w.s( "}\n" );
@@ -1102,8 +1110,12 @@ namespace vt
       int trk = 0;  // 0 eager 1 lazy
       int eol = 3;  // 0 lf 1 cr 2 crlf 3 lf_crlf 4 cr_crlf
       long long ib = 0, il = 1, ic = 1;
-      int cls = 0;  // input class: 0 memory_input
+      int cls = 0;  // input class: 0 memory_input, 1 input_with_depth, 2 buffer_input with a scripted reader,
+                    // 3 string_input, 4 read_input (stdio), 5 mmap_input, 6 argv_input, 7 istream_input, 8 cstream_input
       int extra = 0;
+      long long bmax = 0;    // buffer_input: the maximum passed to the constructor
+      long long bchunk = 0;  // buffer_input: Chunk
+      long long sched = 0;   // buffer_input: reader schedule id
    };
 
    inline void begin_case( const CaseCfg& c, const char* data, std::size_t n )
@@ -1113,6 +1125,7 @@ namespace vt
       G.base_byte = c.ib;
       G.events = 0;
       G.depth = 0;
+      G.by_bytes = false;
       G.next_sid = 0;
       G.in_case = true;
       ++G.case_id;
@@ -1133,6 +1146,9 @@ namespace vt
       w.kv( "ic", c.ic );
       w.kv( "cls", c.cls );
       w.kv( "xt", c.extra );
+      w.kv( "bmax", c.bmax );
+      w.kv( "bchunk", c.bchunk );
+      w.kv( "sched", c.sched );
       w.s( "}\n" );
    }
 
@@ -1222,6 +1238,106 @@ namespace vt
          }
       }
       std::free( blk );
+   }
+
+   // ------------------------------------------------------------------ other input classes (C07)
+
+   // a reader that delivers the stream in the pieces a schedule prescribes (cyclically), never more than asked for,
+   // zero only at the end of the stream; every call is logged
+   struct script_reader
+   {
+      const char* data;
+      std::size_t n;
+      std::size_t pos = 0;
+      std::vector< int > sched;   // empty: as much as requested
+      std::size_t idx = 0;
+      script_reader( const char* d, std::size_t len, std::vector< int > s )
+         : data( d ), n( len ), sched( std::move( s ) )
+      {}
+      std::size_t operator()( char* buffer, const std::size_t length )
+      {
+         std::size_t k = n - pos;
+         if( k > length )
+            k = length;
+         if( !sched.empty() && k > 0 ) {
+            const std::size_t want = std::size_t( sched[ idx++ % sched.size() ] );
+            if( k > want )
+               k = want;
+         }
+         std::memcpy( buffer, data + pos, k );
+         pos += k;
+         Global& G = g();
+         if( G.tracing ) {
+            Writer& w = G.tr;
+            w.s( "{\"k\":\"rd\"" );
+            w.kv( "req", (long long)length );
+            w.kv( "ret", (long long)k );
+            w.kv( "left", (long long)( n - pos ) );
+            w.s( "}\n" );
+         }
+         return k;
+      }
+   };
+
+   template< typename Rule, template< typename... > class Action, template< typename... > class Control, pegtl::apply_mode A, pegtl::rewind_mode M, typename Eol, std::size_t Chunk >
+   void run_buffer_case( CaseCfg c, const std::string& data, std::size_t maximum, const std::vector< int >& sched, int sched_id )
+   {
+      describe< Rule >();
+      c.root = rid< Rule >();
+      c.A = ( A == pegtl::apply_mode::action ) ? 1 : 0;
+      c.M = ( M == pegtl::rewind_mode::required ) ? 1 : 0;
+      c.af = afam_of< Action >;
+      c.cf = Control< Rule >::vcfam;
+      c.trk = 0;
+      c.cls = 2;
+      c.bmax = (long long)maximum;
+      c.bchunk = (long long)Chunk;
+      c.sched = sched_id;
+      char* blk = static_cast< char* >( std::malloc( data.size() ? data.size() : 1 ) );
+      std::memcpy( blk, data.data(), data.size() );
+      begin_case( c, blk, data.size() );
+      g().by_bytes = true;
+      {
+         pegtl::buffer_input< script_reader, Eol, std::string, Chunk > in( "src", maximum, blk, data.size(), sched );
+         try {
+            const bool res = pegtl::parse< Rule, Action, Control, A, M >( in );
+            end_case_ok( res, in );
+         }
+         catch( ... ) {
+            const XInfo x = classify_current();
+            end_case_exc( x, in );
+         }
+      }
+      std::free( blk );
+   }
+
+   // run one case on an arbitrary memory-like input that owns or maps its data
+   template< typename Rule, template< typename... > class Action, template< typename... > class Control, pegtl::apply_mode A, pegtl::rewind_mode M, typename In >
+   void run_input_case( CaseCfg c, int cls, const std::string& data, In& in )
+   {
+      describe< Rule >();
+      c.root = rid< Rule >();
+      c.A = ( A == pegtl::apply_mode::action ) ? 1 : 0;
+      c.M = ( M == pegtl::rewind_mode::required ) ? 1 : 0;
+      c.af = afam_of< Action >;
+      c.cf = Control< Rule >::vcfam;
+      c.trk = ( In::tracking_mode_v == pegtl::tracking_mode::eager ) ? 0 : 1;
+      c.cls = cls;
+      begin_case( c, data.data(), data.size() );
+      if constexpr( !is_buffer_like< In > ) {
+         g().base = in.begin();   // offsets are measured in the input's own copy / mapping of the data
+      }
+      else {
+         g().by_bytes = true;
+      }
+      try {
+         const bool res = pegtl::parse< Rule, Action, Control, A, M >( in );
+         end_case_ok( res, in );
+      }
+      catch( ... ) {
+         const XInfo x = classify_current();
+         end_case_exc( x, in );
+      }
    }
 
    // enumerate all strings of length 0..maxlen over alphabet
